@@ -20,6 +20,17 @@ unsafe impl GlobalAlloc for Counting {
         }
         unsafe { System.alloc(l) }
     }
+    unsafe fn alloc_zeroed(&self, l: Layout) -> *mut u8 {
+        // forward to calloc: large zeroed tables (brotli) must stay lazily zeroed pages, not a memset
+        let live = LIVE.fetch_add(l.size(), Ordering::Relaxed) + l.size();
+        PEAK.fetch_max(live, Ordering::Relaxed);
+        if live > CEILING.load(Ordering::Relaxed) {
+            CEILING_HIT.fetch_max(l.size(), Ordering::Relaxed);
+            LIVE.fetch_sub(l.size(), Ordering::Relaxed);
+            return std::ptr::null_mut();
+        }
+        unsafe { System.alloc_zeroed(l) }
+    }
     unsafe fn dealloc(&self, p: *mut u8, l: Layout) {
         LIVE.fetch_sub(l.size(), Ordering::Relaxed);
         unsafe { System.dealloc(p, l) }
